@@ -54,6 +54,11 @@ CallTokens(name) ==
       [] name = "println" -> <<Tok("LS"), Tok("WIDTH")>> \o Draw \o <<Tok("US")>>       \* BarState::println asks the target for its width first (read lock)
       [] name = "disable" -> <<Tok("LK"), Tok("STOPJOIN"), Tok("CLEARSLOT"), Tok("UK")>>
       [] name \in {"enable", "enable_fast"} -> <<Tok("LK"), Tok("STOPJOIN"), Tok("CLEARSLOT"), Tok("SPAWN"), Tok("UK")>>      \* enable_fast: an interval of one nanosecond
+      (* inc / dec / set_position: the position is an atomic outside every lock; the redraw request is a tick *)
+      [] name = "inc"     -> <<Tok("LK"), Tok("RS"), Tok("UK"), Tok("IFNONE_TICK")>>
+      [] name = "set_message" -> <<Tok("LS")>> \o Draw \o <<Tok("US")>>
+      (* suspend: under the bar state lock; a member hides and repaints the whole MultiProgress under its write lock, held across the closure *)
+      [] name = "suspend" -> <<Tok("LS")>> \o Draw \o <<Tok("US")>>
       [] name = "show"    -> <<Tok("LS"), Tok("US")>>             \* set_draw_target of a stand-alone bar: the old (hidden) target has nothing to disconnect
       [] name = "mp_println" -> <<Tok("WM"), Tok("UM")>>
       [] name = "mp_remove" -> <<Tok("LS"), Tok("RM_IFMEMBER"), Tok("US")>>      \* MultiProgress::remove: bar state, then MultiState
